@@ -1,8 +1,325 @@
-//! C17 — monitor not built yet.
+//! C17 — captured process output is faithful; a task has one well-formed lifecycle.
+//!
+//! Ground truth: the child process is the harness itself (`rv emit <spec>`, see c17_emit.rs), so
+//! every byte written per stream, the write sizes, the pauses and the exit code are known.
+//! Task oracle (c17_task.rs): real router via fixture::App, pipes mode; SSE view + events.jsonl view;
+//! lifecycle grammar, stored bytes == truth[..cap], delta ranges, previews, summary counters,
+//! page walks over GET /tasks/{id}/output, failure classes, cancels at random delays and at
+//! `task.emit.after_record` hits, file length at every publish (`task.emit.after_send`).
+//! Shell-tool oracle (c17_shell.rs): rip_tools::register_builtin_tools + ToolRunner::run.
+//! PTY mode is excluded (not runnable in this sandbox).
+
+#[path = "c17_emit.rs"]
+pub mod emit;
+#[path = "c17_pages.rs"]
+mod pages;
+#[path = "c17_shell.rs"]
+mod shell;
+#[path = "c17_task.rs"]
+mod task;
+
+use crate::fixture::{runtime, App, Store};
+use crate::prng::Rng;
 use crate::report::{Cfg, Report};
+use crate::sched::sched;
+use serde_json::{json, Value};
+
+pub use emit::emit_main;
+
+const N_DIRECTED: u64 = 12;
+
+enum Case {
+    Task(task::TaskCase),
+    Shell(shell::ShellCase),
+}
+
+fn ascii_plan(rng: &mut Rng, n: usize, writes: usize) -> emit::Plan {
+    let out = emit::gen_payload(rng, emit::Content::Ascii, n);
+    let mut ops = Vec::new();
+    let each = n.div_ceil(writes.max(1)).max(1);
+    let mut left = n;
+    while left > 0 {
+        let k = each.min(left);
+        ops.push((1u8, k, 300));
+        left -= k;
+    }
+    emit::Plan { out, err: b"e\n".to_vec(), ops: [ops, vec![(2u8, 2, 0)]].concat(), exit: 0, linger_ms: 0, shape: "directed".into() }
+}
+
+fn base_task(idx: u64, label: &str, plan: emit::Plan) -> task::TaskCase {
+    task::TaskCase {
+        idx,
+        label: label.into(),
+        tool: "bash",
+        limit_arg: None,
+        cap_arg: None,
+        class: task::Class::Normal,
+        cancel: task::Cancel::None,
+        attach: task::Attach::Immediately,
+        plan,
+        cwd: false,
+        env: false,
+        walks: 1,
+        page_seed: idx,
+        starve: false,
+        force_page: None,
+    }
+}
+
+fn base_shell(idx: u64, label: &str, plan: emit::Plan) -> shell::ShellCase {
+    shell::ShellCase {
+        idx,
+        label: label.into(),
+        tool: "bash",
+        cfg_limit: 16,
+        arg_limit: None,
+        cap: 16 * 1024 * 1024,
+        class: shell::ShClass::Normal,
+        plan,
+        cwd: false,
+        env: false,
+        walks: 1,
+        page_seed: idx,
+        starve: false,
+        force_page: None,
+    }
+}
+
+/// Directed cases: run on every invocation, independent of the seed.
+fn directed(idx: u64) -> Case {
+    let mut rng = Rng::derive(0xC17, idx);
+    let cjk = |n: usize| -> emit::Plan {
+        let out = "中文日本".repeat(n / 12 + 1).as_bytes()[..n / 3 * 3].to_vec();
+        let len = out.len();
+        emit::Plan { out, err: Vec::new(), ops: vec![(1, len, 0)], exit: 0, linger_ms: 0, shape: "directed-cjk".into() }
+    };
+    match idx {
+        // F17: page boundary inside a multi-byte character (task output)
+        0 => {
+            let mut c = base_task(idx, "F17 task_output pages of 100 bytes over 3-byte characters", cjk(9000));
+            c.force_page = Some(100);
+            Case::Task(c)
+        }
+        // F17: same through artifact_fetch
+        1 => {
+            let mut c = base_shell(idx, "F17 artifact_fetch pages of 100 bytes over 3-byte characters", cjk(9000));
+            c.force_page = Some(100);
+            Case::Shell(c)
+        }
+        // F18: preview limit 0
+        2 => {
+            let mut c = base_task(idx, "F18 max_bytes 0", ascii_plan(&mut rng, 300, 2));
+            c.limit_arg = Some(0);
+            Case::Task(c)
+        }
+        // F18: limit smaller than the first character
+        3 => {
+            let mut c = base_task(idx, "F18 max_bytes 2, output starts with a 3-byte character", cjk(600));
+            c.limit_arg = Some(2);
+            Case::Task(c)
+        }
+        // F18: invalid UTF-8 at the start of a chunk larger than the limit
+        4 => {
+            let mut p = ascii_plan(&mut rng, 5000, 1);
+            p.out[0] = 0xFF;
+            let mut c = base_task(idx, "F18 max_bytes 100, chunk of 5000 bytes starting with 0xFF", p);
+            c.limit_arg = Some(100);
+            Case::Task(c)
+        }
+        // unflushed log file (blocking pool kept busy)
+        5 => {
+            let mut c = base_task(idx, "flush: 20000 bytes in 3 writes, blocking pool starved", ascii_plan(&mut rng, 20_000, 3));
+            c.starve = true;
+            Case::Task(c)
+        }
+        6 => {
+            let mut c = base_shell(idx, "flush: 20000 bytes, preview 16, blocking pool starved", ascii_plan(&mut rng, 20_000, 3));
+            c.starve = true;
+            Case::Shell(c)
+        }
+        // cancel right after `running` was recorded, child still writing
+        7 => {
+            let mut p = ascii_plan(&mut rng, 30_000, 10);
+            p.linger_ms = 300;
+            let mut c = base_task(idx, "cancel at task.emit.after_record seq 1", p);
+            c.cancel = task::Cancel::AtRecord(1);
+            Case::Task(c)
+        }
+        // cap == read size, output one byte more
+        8 => {
+            let mut c = base_task(idx, "8193 bytes, cap 8192, limit 8192", ascii_plan(&mut rng, 8193, 1));
+            c.cap_arg = Some(8192);
+            c.limit_arg = Some(8192);
+            Case::Task(c)
+        }
+        // shell: caps 0
+        9 => {
+            let mut c = base_shell(idx, "max_bytes 0 and artifact_max_bytes 0", ascii_plan(&mut rng, 500, 2));
+            c.cfg_limit = 0;
+            c.cap = 0;
+            Case::Shell(c)
+        }
+        // shell: preview cut inside a character, blob capped inside a character
+        10 => {
+            let mut c = base_shell(idx, "preview 100 and cap 1000 over 3-byte characters", cjk(3000));
+            c.cfg_limit = 100;
+            c.cap = 1000;
+            Case::Shell(c)
+        }
+        // empty command output, exit code
+        _ => {
+            let mut p = ascii_plan(&mut rng, 0, 1);
+            p.err = Vec::new();
+            p.ops.clear();
+            p.exit = 42;
+            Case::Task(base_task(idx, "no output, exit 42", p))
+        }
+    }
+}
+
+fn make_case(cfg: &Cfg, seed: u64, idx: u64) -> Case {
+    if idx < N_DIRECTED {
+        return directed(idx);
+    }
+    let mut rng = Rng::derive(seed, idx);
+    if rng.chance(1, 2) {
+        Case::Task(task::gen_case(cfg, &mut rng, idx))
+    } else {
+        Case::Shell(shell::gen_case(cfg, &mut rng, idx))
+    }
+}
+
+fn find_case_idx(v: &Value) -> Option<u64> {
+    match v.get("case") {
+        Some(Value::Number(n)) => n.as_u64(),
+        Some(o @ Value::Object(_)) => find_case_idx(o),
+        _ => None,
+    }
+}
 
 pub fn run(cfg: &Cfg) -> i32 {
-    let mut r = Report::new("C17", "exploration", "not built");
-    r.fatal_inconclusive("monitor not built yet");
+    let mut r = Report::new(
+        "C17",
+        "exploration",
+        "seeded cases, half background tasks through the real router (pipes), half foreground bash/shell tool calls; the child \
+         is `rv emit` writing generator-chosen bytes (ASCII / multi-byte text split across writes / binary with NUL and invalid \
+         UTF-8 / empty; sizes around the preview limit, 8192/8193 and the artifact cap; chosen write sizes, pauses, exit code) \
+         plus 12 directed cases; cancels at random delays and at task.emit.after_record hits; random page walks; a case is \
+         non-trivial when the child wrote at least one byte; distinct = content class × write style × size-vs-boundary \
+         buckets × limits × cancel/attach plan × terminal status × page style",
+    );
+    r.assume("hook points do not change behaviour beyond timing");
+    r.assume("PTY mode excluded (cannot run in this sandbox)");
+    r.assume("pipe chunking is influenced by write sizes and pauses but decided by the OS; the oracle never depends on it");
+    let s = sched();
+    let rt = runtime(6);
+    let rt_starved = tokio::runtime::Builder::new_multi_thread()
+        .worker_threads(4)
+        .max_blocking_threads(1)
+        .enable_all()
+        .build()
+        .expect("starved runtime");
+
+    let (seed, only): (u64, Option<u64>) = match &cfg.replay {
+        Some(p) => {
+            let doc: Value = std::fs::read(p).ok().and_then(|b| serde_json::from_slice(&b).ok()).unwrap_or(Value::Null);
+            let idx = find_case_idx(&doc["witness"]);
+            if idx.is_none() {
+                r.fatal_inconclusive("replay file carries no case index");
+                return r.finish(cfg);
+            }
+            (doc["seed"].as_u64().unwrap_or(cfg.seed), idx)
+        }
+        None => (cfg.seed, None),
+    };
+
+    let max_cases = cfg.tier.pick(4000u64, 2_000_000u64);
+    let mut env: Option<(Store, App, u32)> = None;
+    let mut i = 0u64;
+    while i < max_cases {
+        let idx = match only {
+            Some(k) => k,
+            None => i,
+        };
+        i += 1;
+        if only.is_none() {
+            // directed cases always run, even when the budget is short
+            if !cfg.mine(idx) {
+                continue;
+            }
+            // leave ~15 % of the budget for the last case, shard merge and clean-up
+            if idx >= N_DIRECTED && r.elapsed() > cfg.budget_s * 0.85 {
+                break;
+            }
+        }
+        let case = make_case(cfg, seed, idx);
+        let t_case = std::time::Instant::now();
+        let trace = std::env::var("RV_C17_TRACE").is_ok();
+        let desc = match &case {
+            Case::Task(c) => c.describe(),
+            Case::Shell(c) => c.describe(),
+        };
+        match case {
+            Case::Task(c) => {
+                let rtx = if c.starve { &rt_starved } else { &rt };
+                // one router per ~25 tasks (opening an engine costs ~70 ms); a fresh one for starved cases
+                let stale = match &env {
+                    Some((st, _, n)) => c.starve || *n >= 25 || std::fs::metadata(st.log_path()).map(|m| m.len()).unwrap_or(0) > 3_000_000,
+                    None => true,
+                };
+                if stale {
+                    env = None;
+                    let st = Store::new("c17t");
+                    match App::open(&st, None) {
+                        Ok(a) => env = Some((st, a, 0)),
+                        Err(e) => {
+                            r.inconclusive(&format!("case {idx}: cannot open app: {e}"));
+                            continue;
+                        }
+                    }
+                }
+                let out = {
+                    let (st, app, n) = env.as_mut().expect("env");
+                    *n += 1;
+                    rtx.block_on(task::run_case(&mut r, &s, &c, st, app))
+                };
+                if c.starve {
+                    env = None;
+                }
+                s.reset();
+                if let Some(o) = out {
+                    if o.nontrivial {
+                        r.distinct_str(&o.shape);
+                    }
+                    if idx >= N_DIRECTED {
+                        r.sample(c.describe());
+                    }
+                }
+            }
+            Case::Shell(c) => {
+                let rtx = if c.starve { &rt_starved } else { &rt };
+                let out = rtx.block_on(shell::run_case(&mut r, &c));
+                if let Some(o) = out {
+                    if o.nontrivial {
+                        r.distinct_str(&o.shape);
+                    }
+                    if idx >= N_DIRECTED {
+                        r.sample(c.describe());
+                    }
+                }
+            }
+        }
+        if trace {
+            eprintln!("case {idx} {:.0} ms {}", t_case.elapsed().as_secs_f64() * 1000.0, desc);
+        }
+        if only.is_some() {
+            break;
+        }
+    }
+    s.reset();
+    drop(env);
+    r.note("directed_cases", json!(N_DIRECTED));
+    drop(rt);
+    drop(rt_starved);
     r.finish(cfg)
 }
